@@ -46,13 +46,18 @@ def params(draw, tier):
     return p
 
 
-def centred(t, R, on):
-    """Junction positions as TimeSeries sees them (after the optional centring by the rounded mean of all vertices)."""
-    if not on:
-        return dict(t.J)
+def frame_centre(R):
+    """Centre TimeSeries subtracts with cm=True: mean of all vertices rounded to 3 decimals.  Must be evaluated
+    BEFORE the TimeSeries is built (it moves the vertices in place)."""
     xs = np.array([v.x for v in R.vertices.values()])
     ys = np.array([v.y for v in R.vertices.values()])
-    c = complex(round(float(xs.mean()), 3), round(float(ys.mean()), 3))
+    return complex(round(float(xs.mean()), 3), round(float(ys.mean()), 3))
+
+
+def centred(t, c, on):
+    """Junction positions as TimeSeries sees them (after the optional centring)."""
+    if not on:
+        return dict(t.J)
     return {j: z - c for j, z in t.J.items()}
 
 
@@ -93,10 +98,10 @@ def build_series(p):
     return S, js, nint
 
 
-def within_bounds(S, js, k, cm):
+def within_bounds(S, js, k, cm, centres):
     """Exact evaluation of the statement's premises between frames k and k+1 (on what TimeSeries sees)."""
-    A = centred(S.T[k], S.R[k], cm)
-    B = centred(S.T[k + 1], S.R[k + 1], cm)
+    A = centred(S.T[k], centres[k], cm)
+    B = centred(S.T[k + 1], centres[k + 1], cm)
     za = np.array([A[j] for j in js])
     zb = np.array([B[j] for j in js])
     disp = np.abs(zb - za)
@@ -140,13 +145,14 @@ def check_case(p, ctx):
             g[S.vid(k, js[ia])] = S.vid(k + 1, js[ib])
             conflict[k] = {js[ia], js[ib]}
         guess[k] = g
+    centres = {k: frame_centre(S.R[k]) for k in range(n)}
     fsys = call(fs.ForSys, S.frames, cm=p["cm"], initial_guess={k: dict(v) for k, v in guess.items()})
     mesh = fsys.mesh
     moved_frac = []
     conditional = True
     for k in range(n - 1):
         m = mesh.mapping.get(k)
-        ok, ratio, bound, disp = within_bounds(S, js, k, p["cm"])
+        ok, ratio, bound, disp = within_bounds(S, js, k, p["cm"], centres)
         if m is None:
             if ok:
                 return ctx.violation("frames-declared-too-different", p, observed="mapping is None",
